@@ -109,6 +109,12 @@ class Units:
             # find the closure whose item pattern is (lid, ch)
             ch_id = None
             for p in parents:
+                if p.get("k") == "for":
+                    pt = p["pat"]
+                    src = T.peel_ref(p["iter"])
+                    if pt["p"] == "tuple" and len(pt["pats"]) == 2 and pt["pats"][0].get("id") == lid and pt["pats"][1]["p"] == "bind" \
+                            and src.get("k") == "mcall" and src["name"] == "char_indices":
+                        ch_id = pt["pats"][1]["id"]
                 if p.get("k") == "closure":
                     for prm in p["params"]:
                         pt = prm["pat"]
@@ -385,6 +391,12 @@ class Units:
                         pass
             elif k == "mcall" and n["name"] == "fold":
                 self.fold_units(n)
+            elif k == "for":
+                src = T.peel_ref(n["iter"])
+                if src.get("k") == "mcall" and src["name"] == "char_indices":
+                    self.bind_pat(n["pat"], [BB, TOP])
+                else:
+                    self.bind_pat(n["pat"], TOP)
             elif k == "match":
                 su = self.item_units(n["scrut"]) or self.unit(n["scrut"])
                 for a in n["arms"]:
